@@ -126,8 +126,10 @@ def cases(tier, seed):
             out.append({"k": "arrays", "s": list(shape), "v": var})
     out.append({"k": "dtypes"})
     out.append({"k": "twins"})
+    for i in range(6):
+        out.append({"k": "unsorted_names", "i": i})
     out.append({"k": "product"})
-    out.sort(key=lambda c: {"arrays": 0, "u3": 1, "product": 2}.get(c["k"], 3))
+    out.sort(key=lambda c: {"unsorted_names": 0, "arrays": 1, "u3": 2, "product": 3}.get(c["k"], 4))
     return out
 
 
@@ -148,6 +150,15 @@ def run_case(case, R):
         check_poly(R, C09.tagged(shape, variant=var), f"tagged{shape}/{var}", CONFIGS, seqlen=2)
         sp3 = C09.tagged(shape, 5, ("q1", "q2", "q10"), variant=var)
         check_poly(R, sp3, f"tagged3{shape}/{var}", CONFIGS[::5], seqlen=1)
+    elif k == "unsorted_names":
+        for ni, names in enumerate((("q10", "q2"), ("q1", "q0"), ("q2", "q0", "q1"))):
+            kk = len(names)
+            for ti, t in enumerate(([((1,) + (2,) * (kk - 1), 1), ((0,) * (kk - 1) + (1,), 3)], [((2,) + (0,) * (kk - 1), 1), ((1,) * kk, -2), ((0,) * kk, 5)])):
+                if 2 * ni + ti != case["i"]:
+                    continue
+                R.state(("unsorted", names, str(t)))
+                check_poly(R, spec(names, (), t), f"{names} {t}", CONFIGS, seqlen=2)
+                check_poly(R, spec(names, (2,), [(e, [c, -c]) for e, c in t]), f"{names} {t} array", CONFIGS[::3], seqlen=2)
     elif k == "twins":
         for i, sp in enumerate(space.twin_sequence()):
             R.state(("twins", i))
